@@ -84,6 +84,16 @@ class Died(Exception):
     pass
 
 
+def _cpu_seconds(pid):
+    """Processor time (user + system, all threads) the process has consumed so far."""
+    try:
+        with open("/proc/%d/stat" % pid) as fh:
+            f = fh.read().rsplit(")", 1)[1].split()
+        return (int(f[11]) + int(f[12])) / float(os.sysconf("SC_CLK_TCK"))
+    except (OSError, ValueError, IndexError):
+        return 0.0
+
+
 API_COVER = set()   # "<flavour>:<op>" of every request sent to the real library in this worker (reported in the evidence)
 
 
@@ -149,11 +159,21 @@ class OpServer:
             st = self.p.poll()
             self.restart()
             return {"died": st}
-        deadline = time.time() + (timeout or self.timeout)
+        t_lim = (timeout or self.timeout)
+        t_start = time.time()
+        cpu_start = _cpu_seconds(self.p.pid)
+        deadline = t_start + t_lim
         fd = self.p.stdout.fileno()
         while b"\n" not in self.buf:
             left = deadline - time.time()
             if left <= 0:
+                # wall-clock time alone is not a liveness verdict on a loaded machine: a call that has used little processor
+                # time so far was starved (or is blocked) and gets up to six times the limit; one that has burnt its share is
+                # spinning and is reported at once
+                used = _cpu_seconds(self.p.pid) - cpu_start
+                if used < 0.5 * t_lim and time.time() - t_start < 6 * t_lim:
+                    deadline = time.time() + min(t_lim, 6 * t_lim - (time.time() - t_start))
+                    continue
                 self.restart()
                 return {"hang": True}
             r, _, _ = select.select([fd], [], [], left)
